@@ -220,6 +220,33 @@ func execSizesOp(op string) string {
 			return fmt.Sprintf("ok corrupted idx=%d", i+1)
 		}
 	}
+	// a crash right after the acknowledgement: the file is recovered as the tail (also when the batch sealed it: the
+	// rotation had not been committed yet) — the scan of recovery must take every frame the writer accepted
+	{
+		sealedBefore, _, _ := w.Sealed()
+		lastBefore := w.LastIndex()
+		w2, err := f.RecoverTail(info)
+		if err != nil {
+			return fmt.Sprintf("ok recover-failed (%v)", segClass(err))
+		}
+		if la := w2.LastIndex(); la != lastBefore {
+			return fmt.Sprintf("ok lost-by-recovery last=%d want=%d", la, lastBefore)
+		}
+		if sb, _, _ := w2.Sealed(); sb != sealedBefore {
+			return fmt.Sprintf("ok recovery-seal-mismatch %v want %v", sb, sealedBefore)
+		}
+		for i, e := range batch {
+			pb, err := w2.GetLog(e.Index)
+			if err != nil {
+				return fmt.Sprintf("ok unreadable-after-recovery idx=%d (%v)", i+1, segClass(err))
+			}
+			same := bytes.Equal(pb.Bs, e.Data)
+			pb.Close()
+			if !same {
+				return fmt.Sprintf("ok corrupted-after-recovery idx=%d", i+1)
+			}
+		}
+	}
 	sealed, is, _ := w.Sealed()
 	if sealed {
 		info.IndexStart = is
